@@ -411,6 +411,76 @@ func genSmtFacts() (string, error) {
 		return "", fmt.Errorf("(*Store).Root: call of CommitParallel not found")
 	}
 	fmt.Fprintf(&b, "/-- `Store.Root()` commits `s.sc.CommitParallel(%s)`: the tree receives exactly the pending state operations, unfiltered -/\ndef rootCommitsPendingOpsUnfiltered : Bool := %v\n", rootArg, rootArg == "s.ss.txn.ops")
+	// Store.Commit(): where does the committed root come from? expected: ONE assignment to `root` in the whole body, a
+	// top-level statement `root, err = s.Root()` (unconditional)
+	cmFd := smtFindFunc(st, "Store", "Commit")
+	if cmFd == nil {
+		return "", fmt.Errorf("store/store.go: (*Store).Commit not found")
+	}
+	rootAssigns, rootTop := 0, false
+	ast.Inspect(cmFd.Body, func(n ast.Node) bool {
+		as, ok := n.(*ast.AssignStmt)
+		if !ok {
+			return true
+		}
+		for _, l := range as.Lhs {
+			if g.ExprText(l) == "root" {
+				rootAssigns++
+			}
+		}
+		return true
+	})
+	for _, stmt := range cmFd.Body.List {
+		if as, ok := stmt.(*ast.AssignStmt); ok && len(as.Lhs) == 2 && g.ExprText(as.Lhs[0]) == "root" && len(as.Rhs) == 1 &&
+			strings.ReplaceAll(g.ExprText(as.Rhs[0]), " ", "") == "s.Root()" {
+			rootTop = true
+		}
+	}
+	if rootAssigns == 0 {
+		return "", fmt.Errorf("(*Store).Commit: no assignment to root found")
+	}
+	fmt.Fprintf(&b, "/-- `Store.Commit()`: `root` is assigned %d time(s) in the body; the assignment is the top-level, unconditional\nstatement `root, err = s.Root()` -/\ndef commitTakesRootFromRoot : Bool := %v\n", rootAssigns, rootAssigns == 1 && rootTop)
+	// Store.Rollback(): the key-space prefixes pruned above the target height (the `[][]byte{…}` literal ranged over)
+	rbFd := smtFindFunc(st, "Store", "Rollback")
+	if rbFd == nil {
+		return "", fmt.Errorf("store/store.go: (*Store).Rollback not found")
+	}
+	var pruned []string
+	ast.Inspect(rbFd.Body, func(n ast.Node) bool {
+		rs, ok := n.(*ast.RangeStmt)
+		if !ok {
+			return true
+		}
+		cl, ok := rs.X.(*ast.CompositeLit)
+		if !ok || strings.ReplaceAll(g.ExprText(cl.Type), " ", "") != "[][]byte" {
+			return true
+		}
+		callsPrune := false
+		ast.Inspect(rs.Body, func(m ast.Node) bool {
+			if c, ok := m.(*ast.CallExpr); ok && strings.HasSuffix(g.ExprText(c.Fun), ".pruneVersionWindow") {
+				callsPrune = true
+			}
+			return true
+		})
+		if callsPrune {
+			for _, e := range cl.Elts {
+				pruned = append(pruned, g.ExprText(e))
+			}
+		}
+		return true
+	})
+	if len(pruned) == 0 {
+		return "", fmt.Errorf("(*Store).Rollback: the list of pruned prefixes (range over [][]byte{…} calling pruneVersionWindow) not found")
+	}
+	var prunedLits []string
+	for _, name := range pruned {
+		pb, ok := prefixes[name]
+		if !ok {
+			return "", fmt.Errorf("(*Store).Rollback: pruned prefix %s is not in the prefix table", name)
+		}
+		prunedLits = append(prunedLits, g.BytesLit(pb))
+	}
+	fmt.Fprintf(&b, "/-- `Store.Rollback(v)` deletes every entry above `v` under these prefixes: %s -/\ndef rollbackPrunedPrefixes : List Bytes := [%s]\n", strings.Join(pruned, ", "), strings.Join(prunedLits, ", "))
 	// Store.Copy(): which fields of the clone are taken over from the source store as they are (shared objects)?
 	cpFd := smtFindFunc(st, "Store", "Copy")
 	if cpFd == nil {
